@@ -79,6 +79,10 @@ func lazyRoots(c *an.Ctx) (roots []*ssa.Function, invoke []*ssa.Function) {
 // than Invoke, in the given call graph.
 func ruleWReach(rule string, graphName string) RuleFn {
 	return func(c *an.Ctx) {
+		if c.Tier == "thorough" && graphName == "CHA" {
+			// thorough tier: both graphs must agree on "unreachable"
+			defer ruleWReach(rule+"-vta", "VTA")(c)
+		}
 		c.Rule(rule, "E-CG must-not-reach: in the "+graphName+" call graph no function containing a user-code sink (call through invokerFn, call through Callback, reflect.Value.Call/CallSlice) is reachable from any exported function or method of package dig other than Invoke; Invoke must reach them (positive control)")
 		var g *callgraph.Graph
 		if graphName == "VTA" {
